@@ -4,7 +4,8 @@ package main
 //   * jobconfig.GetState: the ordered chain of (guard source text, returned JobConfigState value);
 //   * jobconfigcontroller/informer.go: which of AddFunc/UpdateFunc/DeleteFunc are registered on the
 //     JobConfig informer and on the Job informer.
-// Only the rigid shapes below are recognised; anything else fails loudly.
+// Only the shapes below (up to the equivalences of norm.go) are recognised; anything else fails
+// the section loudly.
 
 import (
 	"bytes"
@@ -20,77 +21,44 @@ func srcText(n ast.Node) string {
 	return strings.Join(strings.Fields(b.String()), " ")
 }
 
-// singleReturnName: the block is exactly `return <pkg.Ident | Ident>`.
-func singleReturnName(stmts []ast.Stmt) (string, bool) {
-	if len(stmts) != 1 {
-		return "", false
-	}
-	rs, ok := stmts[0].(*ast.ReturnStmt)
-	if !ok || len(rs.Results) != 1 {
-		return "", false
-	}
-	n := exprName(rs.Results[0])
-	return n, n != "?"
-}
-
-// stateChain flattens the body of jobconfig.GetState into an ordered list of
-// (guard, returned constant).  Recognised statement shapes:
+// stateChain reads the body of jobconfig.GetState as a first-match decision list (norm.go) and
+// returns the ordered (guard, returned constant) pairs.  A nested guard is printed as the
+// conjunction of the enclosing conditions, the final unconditional return as "true":
 //
-//	if <cond> { return C }                          -> (cond, C)
-//	if <init>; <cond> { if <c2> { return A }; return B } -> (cond && c2, A), (cond, B)
-//	return C                                        -> ("true", C)           (last statement only)
+//	if <cond> { return C }                                  -> (cond, C)
+//	if <init>; <cond> { if <c2> { return A }; return B }    -> (cond && c2, A), (cond, B)
+//	return C                                                -> ("true", C)
+//
+// (`if c { return A } else { return B }`, a switch with returns … are the same list.)  The only
+// admitted initialiser is the alias `spec := rjc.Spec.Schedule`.
 func stateChain(rel, name string) [][2]string {
 	fd := funcDecl(rel, "", name)
 	if fd == nil || fd.Body == nil {
 		return nil
 	}
+	ds, term, err := decisionList(fd.Body.List)
+	if err != nil {
+		failf("%s: %s: %v", rel, name, err)
+		return nil
+	}
 	var out [][2]string
-	n := len(fd.Body.List)
-	for i, st := range fd.Body.List {
-		switch s := st.(type) {
-		case *ast.IfStmt:
-			if s.Else != nil {
-				failf("%s: %s: statement %d: if with else is not a recognised shape", rel, name, i)
-				return nil
-			}
-			cond := srcText(s.Cond)
-			if s.Init != nil {
-				// the only admitted initialiser is the alias `spec := rjc.Spec.Schedule`
-				if got := srcText(s.Init); got != "spec := rjc.Spec.Schedule" {
-					failf("%s: %s: statement %d: unrecognised if-initialiser %q", rel, name, i, got)
+	for i, d := range ds {
+		c, ok := singleResult(d)
+		if !ok {
+			failf("%s: %s: decision %d (%s) is not a single return of a constant", rel, name, i, pathText(d.Path))
+			return nil
+		}
+		for _, g := range d.Path {
+			if g.Init != nil {
+				if got := srcText(g.Init); got != "spec := rjc.Spec.Schedule" {
+					failf("%s: %s: decision %d: unrecognised if-initialiser %q", rel, name, i, got)
 					return nil
 				}
 			}
-			if c, ok := singleReturnName(s.Body.List); ok {
-				out = append(out, [2]string{cond, c})
-				continue
-			}
-			if len(s.Body.List) == 2 {
-				inner, ok1 := s.Body.List[0].(*ast.IfStmt)
-				c2, ok2 := singleReturnName(s.Body.List[1:])
-				if ok1 && ok2 && inner.Else == nil && inner.Init == nil {
-					if c1, ok := singleReturnName(inner.Body.List); ok {
-						out = append(out, [2]string{cond + " && " + srcText(inner.Cond), c1})
-						out = append(out, [2]string{cond, c2})
-						continue
-					}
-				}
-			}
-			failf("%s: %s: statement %d: unrecognised if body", rel, name, i)
-			return nil
-		case *ast.ReturnStmt:
-			c, ok := singleReturnName([]ast.Stmt{s})
-			if !ok || i != n-1 {
-				failf("%s: %s: statement %d: unrecognised return", rel, name, i)
-				return nil
-			}
-			out = append(out, [2]string{"true", c})
-		default:
-			failf("%s: %s: statement %d: unrecognised statement %T", rel, name, i, st)
-			return nil
 		}
+		out = append(out, [2]string{pathText(d.Path), c})
 	}
-	if len(out) == 0 || out[len(out)-1][0] != "true" {
+	if !term || len(out) == 0 || out[len(out)-1][0] != "true" {
 		failf("%s: %s: chain does not end in an unconditional return", rel, name)
 	}
 	return out
@@ -156,29 +124,36 @@ func jcstatusFacts(b *strings.Builder) {
 	const typesGo = "apis/execution/v1alpha1/jobconfig_types.go"
 	const informerGo = "pkg/execution/controllers/jobconfigcontroller/informer.go"
 
-	stateVals := typedStringConsts(typesGo, "JobConfigState")
-	chain := stateChain(stateGo, "GetState")
-	b.WriteString("\n/-- `jobconfig.GetState`: ordered chain of (guard as written in the source, returned `JobConfigState` value) -/\n")
-	b.WriteString("def jobConfigStateChain : List (String × String) := [")
-	for i, c := range chain {
-		v, ok := stateVals[c[1]]
-		if !ok {
-			failf("%s: GetState returns %s which is not a JobConfigState constant", stateGo, c[1])
+	var chain [][2]string
+	section("jcstatus-state", func() {
+		stateVals := typedStringConsts(typesGo, "JobConfigState")
+		for _, c := range stateChain(stateGo, "GetState") {
+			v, ok := stateVals[c[1]]
+			if !ok {
+				failf("%s: GetState returns %s which is not a JobConfigState constant", stateGo, c[1])
+			}
+			chain = append(chain, [2]string{c[0], v})
 		}
-		if i > 0 {
-			b.WriteString(", ")
+	})
+	var jc, jb [3]bool
+	section("jcstatus-handlers", func() {
+		regs := handlerRegistrationsByInformer(informerGo)
+		var ok1, ok2 bool
+		jc, ok1 = regs["w.jobconfigInformer.Informer()"]
+		jb, ok2 = regs["w.jobInformer.Informer()"]
+		if !ok1 || !ok2 || len(regs) != 2 {
+			failf("%s: expected exactly one handler registration on w.jobconfigInformer and one on w.jobInformer, found %v", informerGo, regs)
 		}
-		fmt.Fprintf(b, "(%s, %s)", leanStr(c[0]), leanStr(v))
-	}
-	b.WriteString("]\n")
+	})
 
-	regs := handlerRegistrationsByInformer(informerGo)
-	jc, ok1 := regs["w.jobconfigInformer.Informer()"]
-	jb, ok2 := regs["w.jobInformer.Informer()"]
-	if !ok1 || !ok2 || len(regs) != 2 {
-		failf("%s: expected exactly one handler registration on w.jobconfigInformer and one on w.jobInformer, found %v", informerGo, regs)
-	}
-	b.WriteString("/-- jobconfigcontroller `NewInformerWorker`: (AddFunc, UpdateFunc, DeleteFunc) registered on the JobConfig informer / on the Job informer -/\n")
-	fmt.Fprintf(b, "def jcInformerJobConfigHandlers : Bool × Bool × Bool := (%v, %v, %v)\n", jc[0], jc[1], jc[2])
-	fmt.Fprintf(b, "def jcInformerJobHandlers : Bool × Bool × Bool := (%v, %v, %v)\n", jb[0], jb[1], jb[2])
+	b.WriteString("\n")
+	emit(b, "jcstatus-state", func(b *strings.Builder) {
+		b.WriteString("/-- `jobconfig.GetState`: ordered chain of (guard as written in the source, returned `JobConfigState` value) -/\n")
+		fmt.Fprintf(b, "def jobConfigStateChain : List (String × String) := %s\n", leanPairs(chain))
+	})
+	emit(b, "jcstatus-handlers", func(b *strings.Builder) {
+		b.WriteString("/-- jobconfigcontroller `NewInformerWorker`: (AddFunc, UpdateFunc, DeleteFunc) registered on the JobConfig informer / on the Job informer -/\n")
+		fmt.Fprintf(b, "def jcInformerJobConfigHandlers : Bool × Bool × Bool := (%v, %v, %v)\n", jc[0], jc[1], jc[2])
+		fmt.Fprintf(b, "def jcInformerJobHandlers : Bool × Bool × Bool := (%v, %v, %v)\n", jb[0], jb[1], jb[2])
+	})
 }
